@@ -405,6 +405,40 @@ def s7(ctx, rep, clause="S7"):
     rep.put(ok, clause, "agreement", "Tuner.run: StopIteration caught only around _schedule_new_tasks", r, hs[0] if hs else None, "")
 
 
+def s6b(ctx, rep):
+    """guard table (found thin by the generic mutation audit)"""
+    from .common import require_guard, call_nodes
+    P = ctx.P
+    f = P.method("TuningStatus", "mark_running_job_as_stopped")
+    cfg = cfg_of(f)
+    st = [n.id for n in cfg.nodes if n.kind == "stmt" and isinstance(n.ast, ast.Assign) and isinstance(n.ast.targets[0], ast.Subscript)
+          and U(n.ast.targets[0].slice) == "'status'" and U(n.ast.value) == "Status.stopped"]
+    require_guard(ctx, rep, "S6", f, "TuningStatus.mark_running_job_as_stopped: a row is marked stopped | it was in progress", st,
+                  [("row['status'] == Status.in_progress", lambda a: a[0] == "eq" and a[3] is True and "Status.in_progress" in (a[1], a[2]))],
+                  "finished trials are re-labelled as stopped and running ones keep 'in progress' after run() returned")
+    dc = [x for x in walk_shallow(f.node) if isinstance(x, ast.DictComp) and isinstance(x.value, ast.IfExp)]
+    ok = len(dc) == 1
+    if ok:
+        ie = dc[0].value
+        t, a_t, a_f = ie.test, ie.body, ie.orelse
+        while isinstance(t, ast.UnaryOp) and isinstance(t.op, ast.Not):
+            t, a_t, a_f = t.operand, a_f, a_t
+        at = atoms_of(t, True)
+        is_run = any(a[0] == "eq" and "Status.in_progress" in (a[1], a[2]) for a in at)
+        pos = any(a[0] == "eq" and a[3] is True for a in at)
+        stopped_arm, keep_arm = (a_t, a_f) if pos else (a_f, a_t)
+        ok = is_run and U(stopped_arm) == "Status.stopped" and U(keep_arm) == U(dc[0].generators[0].target.elts[1])
+    rep.put(ok, "S6", "agreement", "TuningStatus.mark_running_job_as_stopped: last-seen status map: in_progress -> stopped, everything else kept", f,
+            dc[0] if dc else None, "", "the status map relabels the wrong trials: num_trials_running / num_trials_finished are wrong after run() returned")
+    g = P.method("SimulatorCallback", "_modify_stop_criterion")
+    cg = cfg_of(g)
+    repl = [n.id for n in cg.nodes if n.kind == "stmt" and isinstance(n.ast, ast.Assign) and any(U(t).endswith(".stop_criterion") for t in n.ast.targets)]
+    require_guard(ctx, rep, "S5", g, "SimulatorCallback._modify_stop_criterion: the criterion is replaced | it is a StoppingCriterion with max_wallclock_time", repl,
+                  [("isinstance(stop_criterion, StoppingCriterion)", lambda a: a[0] == "isinstance" and a[2] == "StoppingCriterion" and a[3] is True),
+                   ("max_wallclock_time is not None", lambda a: a[0] == "is" and a[1].endswith(".max_wallclock_time") and a[3] is False)],
+                  "a wallclock budget is not translated to simulated time (the simulated run never ends on it), or a criterion without a budget is rewritten")
+
+
 def s9(ctx, rep):
     """every configured criterion is consulted: with all thresholds configured, none of them crossed and at least one
     result reported, the test of each threshold is still reached (no criterion is hidden behind another one)."""
@@ -474,6 +508,7 @@ def run(ctx, rep, tier="quick"):
     s5(ctx, rep)
     s6(ctx, rep)
     s7(ctx, rep)
+    s6b(ctx, rep)
     s9(ctx, rep)
     from . import c01
     c01.s10(ctx, rep, clause="S8")
